@@ -73,7 +73,7 @@ def run_keys(ctx):
     binary = ctx.go_build("balancer/rls/internal/keys", name="c41k", only=r"zz_verif_c41k_")
     tpath = os.path.join(ctx.run, "keys.ndjson")
     spath = os.path.join(ctx.run, "keys-sep.ndjson")
-    n = ctx.pick(25, 400)
+    n = ctx.pick(15, 120)
     ctx.driver(binary, "TestVerifC41Keys", {"VERIF_OUT": tpath, "VERIF_OUT_SEP": spath, "VERIF_N": n})
     rows = read_ndjson(tpath)
     for r in rows:
@@ -142,7 +142,7 @@ def run_cache(ctx):
     ctx.neg("RLSCacheMC", "RLSCacheNeg.cfg", expect="I_EvictLRU", workers=2)
     binary = ctx.go_build("balancer/rls", name="c41c", only=r"zz_verif_c41c_")
     g = ctx.dump_graph("RLSCacheMC", "RLSCacheGen.cfg", workers=4)
-    behs = ctx.edge_cover(g, cache_step, limit=ctx.pick(1500, None))
+    behs = ctx.edge_cover(g, cache_step, limit=ctx.pick(700, 5000))
     bpath = os.path.join(ctx.run, "cache-beh.ndjson")
     tpath = os.path.join(ctx.run, "cache-replay.ndjson")
     write_ndjson(bpath, behs)
@@ -152,7 +152,7 @@ def run_cache(ctx):
     ctx.sample(behs[len(behs) // 2])
     judge(ctx, ctx.validate("RLSCacheTrace", "RLSCacheTrace.cfg", tpath), tpath, "RLS data cache, replay of TLC behaviours")
     tpath2 = os.path.join(ctx.run, "cache-random.ndjson")
-    n = ctx.pick(120, 3000)
+    n = ctx.pick(80, 700)
     ctx.driver(binary, "TestVerifC41CacheRandom", {"VERIF_OUT": tpath2, "VERIF_N": n})
     ctx.count({"cache_random_runs": n, "seed": ctx.seed}, n=n)
     judge(ctx, ctx.validate("RLSCacheTrace", "RLSCacheTrace.cfg", tpath2), tpath2, "RLS data cache, random operation sequences seed %d" % ctx.seed)
@@ -166,7 +166,7 @@ def run_lookback(ctx):
     ctx.neg("RLSLookbackMC", "RLSLookbackNeg.cfg", expect="I_WindowSum", workers=2)
     binary = ctx.go_build("balancer/rls/internal/adaptive", name="c41l", only=r"zz_verif_c41l_")
     tpath = os.path.join(ctx.run, "lookback.ndjson")
-    n = ctx.pick(150, 3000)
+    n = ctx.pick(80, 600)
     ctx.driver(binary, "TestVerifC41Lookback", {"VERIF_OUT": tpath, "VERIF_N": n})
     ctx.count({"lookback_runs": n, "seed": ctx.seed}, n=n)
     judge(ctx, ctx.validate("RLSLookbackTrace", "RLSLookbackTrace.cfg", tpath), tpath, "adaptive throttler lookback window seed %d" % ctx.seed)
@@ -174,9 +174,17 @@ def run_lookback(ctx):
 
 
 def run(ctx):
-    run_keys(ctx)
-    run_cache(ctx)
-    lb = run_lookback(ctx)
+    # VERIF_C41_PART=keys|cache|lookback restricts the run to one part (debugging / mutant runs only)
+    part = os.environ.get("VERIF_C41_PART", "")
+    lb = True
+    if part in ("", "keys"):
+        run_keys(ctx)
+    if part in ("", "cache"):
+        run_cache(ctx)
+    if part in ("", "lookback"):
+        lb = run_lookback(ctx)
+    if part:
+        ctx.assumptions.append("PARTIAL RUN: only part %r of C41 was executed" % part)
     ctx.cov["rule"] = ("keys: one evaluation per recorded (config, request) and per member of an injectivity set, distinct by input, "
                        "non-trivial = non-empty key map / set of >= 2 requests; cache: behaviours = edge cover of the TLC state graph "
                        "of RLSCache.tla (BFS prefix + one transition) executed on the real dataCache, non-trivial = >= 2 operations, "
